@@ -199,6 +199,29 @@ func wrapIfContextError(err error) error {
 	return err
 }
 
+// wrapIfContextDone wraps errors with CodeCanceled or CodeDeadlineExceeded if
+// the context is done. The transport doesn't always report that with an error
+// we'd recognize: for a context canceled with a cause, net/http returns the
+// cause; when we tear down a call after cancellation, reads fail with whatever
+// the teardown produced. It leaves already-coded errors unchanged.
+func wrapIfContextDone(ctx context.Context, err error) error {
+	if err == nil {
+		return nil
+	}
+	err = wrapIfContextError(err)
+	if _, ok := asError(err); ok {
+		return err
+	}
+	ctxErr := ctx.Err()
+	if errors.Is(ctxErr, context.Canceled) {
+		return NewError(CodeCanceled, err)
+	}
+	if errors.Is(ctxErr, context.DeadlineExceeded) {
+		return NewError(CodeDeadlineExceeded, err)
+	}
+	return err
+}
+
 // wrapIfLikelyWithGRPCNotUsedError adds a wrapping error that has a message
 // telling the caller that they likely need to use h2c but are using a raw http.Client{}.
 //
